@@ -206,7 +206,12 @@ def gen_scenario(seed, opts):
             if k == "missing":
                 continue
             files[n] = k
-        inv = {"argv": argv, "stdout": "devfull" if (mode in ("E", "M") and not use_o and "-MF" not in argv and r.below(8) == 0) else "file", "faults": []}
+        so_kind = "file"
+        if mode in ("E", "M") and not use_o and "-MF" not in argv and r.below(8) == 0:
+            so_kind = "devfull"
+        elif r.below(25) == 0:
+            so_kind = "closed"      # descriptor 1 is closed: the first file the process opens becomes "standard output"
+        inv = {"argv": argv, "stdout": so_kind, "stderr": "devfull" if r.below(30) == 0 else "file", "faults": []}
         invs.append(inv)
     # concurrent invocations have disjoint requested outputs (two commands told to write the same file
     # interfere legitimately); everything else -- directory, /tmp, inputs -- is shared on purpose
@@ -787,14 +792,16 @@ class Machine:
             for i in self.which:
                 inv = self.scn["invocations"][i]
                 self.inv_state[i] = {"nfork": 0, "count": {}, "children": [], "ended": [], "fired": [], "temps": [], "waits": [], "exits": [], "opens": [], "unlinks": []}
-                so = open(os.path.join(self.wdir, "stdout.%d" % i), "wb") if inv["stdout"] == "file" else open("/dev/full", "wb")
-                se = open(os.path.join(self.wdir, "stderr.%d" % i), "wb")
+                so = open(os.path.join(self.wdir, "stdout.%d" % i), "wb") if inv["stdout"] != "devfull" else open("/dev/full", "wb")
+                se = open(os.path.join(self.wdir, "stderr.%d" % i), "wb") if inv.get("stderr", "file") == "file" else open("/dev/full", "wb")
+                if inv.get("stderr", "file") != "file":
+                    open(os.path.join(self.wdir, "stderr.%d" % i), "wb").close()
                 outs[i] = (so, se)
                 e = dict(env)
                 e["VSIM_TAG"] = str(i)
                 self.pending_hello += 1
                 popen[i] = subprocess.Popen([self.env["cc"]] + inv["argv"], cwd=self.cwd, env=e, stdin=subprocess.DEVNULL, stdout=so, stderr=se,
-                                            start_new_session=True)
+                                            start_new_session=True, preexec_fn=(close_stdout if inv["stdout"] == "closed" else None))
             verdict = None
             while True:
                 self.quiesce()
@@ -844,11 +851,15 @@ class Machine:
                "context_switches": self.context_switches, "interleaved_with_temps": self.interleaved_with_temps, "fault_fired": list(self.fault_fired)}
         for i in self.which:
             res["stderr"][i] = self.canon_stderr(i, open(os.path.join(self.wdir, "stderr.%d" % i), errors="replace").read())
-            if self.scn["invocations"][i]["stdout"] == "file":
+            if self.scn["invocations"][i]["stdout"] in ("file", "closed"):
                 res["stdout"][i] = open(os.path.join(self.wdir, "stdout.%d" % i), errors="replace").read()
             else:
                 res["stdout"][i] = None
         return res
+
+
+def close_stdout():
+    os.close(1)
 
 
 def snapshot(d):
@@ -884,15 +895,16 @@ def reference_run(env, wdir, scn, i, cache):
     mach.setup_fs()
     # (the shim is loaded but inactive without VSIM_SOCK; it still refuses to unlink device nodes)
     e = {"PATH": env["tools"][scn["tools"]] + ":/usr/bin:/bin", "HOME": "/nonexistent", "LANG": "C", "LD_PRELOAD": env["libvsim"]}
-    so = open(os.path.join(wdir, "ref.stdout"), "wb") if inv["stdout"] == "file" else open("/dev/full", "wb")
+    so = open(os.path.join(wdir, "ref.stdout"), "wb") if inv["stdout"] != "devfull" else open("/dev/full", "wb")
     with so, open(os.path.join(wdir, "ref.stderr"), "wb") as se:
         try:
-            rc = subprocess.run([env["cc"]] + inv["argv"], cwd=mach.cwd, env=e, stdin=subprocess.DEVNULL, stdout=so, stderr=se, timeout=60).returncode
+            rc = subprocess.run([env["cc"]] + inv["argv"], cwd=mach.cwd, env=e, stdin=subprocess.DEVNULL, stdout=so, stderr=se, timeout=60,
+                                preexec_fn=(close_stdout if inv["stdout"] == "closed" else None)).returncode
         except subprocess.TimeoutExpired:
             raise Inconclusive("reference run timed out")
     after = snapshot(mach.cwd)
     ref = {"status": rc, "outputs": dict((o, after.get(o)) for o in m["requested"]),
-           "stdout": open(os.path.join(wdir, "ref.stdout"), errors="replace").read() if inv["stdout"] == "file" else None}
+           "stdout": open(os.path.join(wdir, "ref.stdout"), errors="replace").read() if inv["stdout"] != "devfull" else None}
     cache[key] = ref
     return ref
 
@@ -1057,10 +1069,10 @@ def check(env, wdir, scn, res, solo, refs, which):
         byte_exact = True
         if m["refused"]:
             must_fail.append(("driver", "-o with several inputs and -c/-S/-E must be refused"))
-        if inv["stdout"] == "devfull" and ((m["mode"] == "E" and not m["out"]) or (m["mode"] == "M" and not m["requested"])):
+        if inv["stdout"] in ("devfull", "closed") and ((m["mode"] == "E" and not m["out"]) or (m["mode"] == "M" and not m["requested"])):
             ok_tus = [c for c in st["children"] if c["label"].startswith("cc1")]
             if ok_tus and not failed:
-                must_fail.append(("cc1", "standard output is /dev/full: the preprocessed text cannot be written"))
+                must_fail.append(("cc1", "standard output is /dev/full or closed: the text cannot be written"))
         # O1 status
         if must_fail and status == 0:
             v.append(("O1-exit-zero-after-failure", i, "exit status 0 although: " + "; ".join("%s %s" % f for f in must_fail[:4])))
@@ -1155,7 +1167,7 @@ def check(env, wdir, scn, res, solo, refs, which):
                         continue
                     if not o.startswith("/") and s["after"].get(o) != res["after"].get(o):
                         v.append(("O5-interference-output", i, "%s differs between the concurrent and the lone execution" % o))
-                if s["stderr"][i] != res["stderr"][i]:
+                if inv.get("stderr", "file") == "file" and s["stderr"][i] != res["stderr"][i]:
                     v.append(("O5-interference-diagnostics", i, "diagnostics differ:\nconcurrent: %s\nalone: %s" % (res["stderr"][i][-200:], s["stderr"][i][-200:])))
     # O3/O4 global: nothing new except requested outputs; unrelated files untouched; /tmp as before
     for f in sorted(set(res["after"]) | set(res["before"])):
@@ -1291,7 +1303,7 @@ def describe(scn):
     for n in sorted(scn["pre"]):
         out.append("  pre-existing %s" % n)
     for i, inv in enumerate(scn["invocations"]):
-        out.append("  inv%d: chibicc %s%s" % (i, " ".join(inv["argv"]), " > /dev/full" if inv["stdout"] == "devfull" else ""))
+        out.append("  inv%d: chibicc %s%s" % (i, " ".join(inv["argv"]), (" > /dev/full" if inv["stdout"] == "devfull" else " >&-" if inv["stdout"] == "closed" else "") + (" 2> /dev/full" if inv.get("stderr") == "devfull" else "")))
         for f in inv["faults"]:
             out.append("        fault: %s" % json.dumps(f, sort_keys=True))
     s = scn.get("sched", {})
